@@ -118,7 +118,7 @@ impl CommitTree {
                     indices_to_prove.as_slice(),
                     leaves_to_prove.as_slice(),
                     *length,
-                ) {
+                ) && self.has_prefix(&leaves, other_root, *length) {
                     Ok(Comparison::Contains(indices_to_prove.to_vec()))
                 } else {
                     Ok(Comparison::Unknown)
@@ -126,6 +126,29 @@ impl CommitTree {
             } else {
                 Ok(Comparison::Unknown)
             }
+        }
+    }
+
+    /// Determine if the first `length` leaves of this tree
+    /// produce the other root hash.
+    ///
+    /// A proof only establishes that the leaves at the proven
+    /// indices match; when this tree is long enough to hold the
+    /// other tree it contains the other tree only when the other
+    /// tree is a prefix of this tree.
+    fn has_prefix(
+        &self,
+        leaves: &[TreeHash],
+        other_root: &CommitHash,
+        length: usize,
+    ) -> bool {
+        if let Some(prefix) = leaves.get(..length) {
+            let tree = MerkleTree::<Sha256>::from_leaves(prefix);
+            tree.root().map(CommitHash).as_ref() == Some(other_root)
+        } else {
+            // This tree is shorter than the other tree so
+            // only the proven leaves can be compared
+            true
         }
     }
 
